@@ -5,6 +5,7 @@ package spec
 
 import (
 	"fmt"
+	"go/constant"
 	"go/types"
 
 	"golang.org/x/tools/go/ssa"
@@ -78,28 +79,141 @@ func ResolveAnchors(p *core.Program) (*Anchors, error) {
 	if !ok {
 		return nil, fmt.Errorf("CPUTensor is not a struct")
 	}
-	a.FData, a.FDims, a.FGctx = fieldIndex(st, "data"), fieldIndex(st, "dims"), fieldIndex(st, "gctx")
-	if a.FData < 0 || a.FDims < 0 || a.FGctx < 0 {
-		return nil, fmt.Errorf("CPUTensor fields data/dims/gctx not found")
+	if a.TensorIface, err = lookupNamed(p, core.PkgITensor, "Tensor"); err != nil {
+		return nil, err
 	}
 	if a.GradContext, err = lookupNamed(p, core.PkgGrad, "GradContext"); err != nil {
 		return nil, err
 	}
+	// Private fields are found by name first and by ROLE (their type, and for the two flags how the walk uses
+	// them) when a refactoring renamed them.
+	uniqueBy := func(st *types.Struct, pred func(types.Type) bool) int {
+		found := -1
+		for i := 0; i < st.NumFields(); i++ {
+			if pred(st.Field(i).Type()) {
+				if found >= 0 {
+					return -1
+				}
+				found = i
+			}
+		}
+		return found
+	}
+	pick := func(st *types.Struct, name string, pred func(types.Type) bool) int {
+		if i := fieldIndex(st, name); i >= 0 && pred(st.Field(i).Type()) {
+			return i
+		}
+		return uniqueBy(st, pred)
+	}
+	isAny := func(t types.Type) bool {
+		it, ok := t.Underlying().(*types.Interface)
+		return ok && it.NumMethods() == 0
+	}
+	isInts := func(t types.Type) bool {
+		sl, ok := t.Underlying().(*types.Slice)
+		return ok && types.Identical(sl.Elem(), types.Typ[types.Int])
+	}
+	isGctxPtr := func(t types.Type) bool {
+		pt, ok := t.(*types.Pointer)
+		return ok && types.Identical(pt.Elem(), a.GradContext)
+	}
+	a.FData, a.FDims, a.FGctx = pick(st, "data", isAny), pick(st, "dims", isInts), pick(st, "gctx", isGctxPtr)
+	if a.FData < 0 || a.FDims < 0 || a.FGctx < 0 {
+		return nil, fmt.Errorf("CPUTensor fields for element data (any) / dims ([]int) / gradient context (*GradContext) not found")
+	}
 	gs := a.GradContext.Underlying().(*types.Struct)
-	a.GTracked, a.GDirty, a.GGradient, a.GBackEdges = fieldIndex(gs, "tracked"), fieldIndex(gs, "bpdirty"), fieldIndex(gs, "gradient"), fieldIndex(gs, "backEdges")
-	if a.GTracked < 0 || a.GDirty < 0 || a.GGradient < 0 || a.GBackEdges < 0 {
-		return nil, fmt.Errorf("GradContext fields not found")
+	isTensor := func(t types.Type) bool { return types.Identical(t, a.TensorIface) }
+	// the back-edge type: element of the one slice-of-pointer-to-struct field whose struct has a Tensor and a func field
+	var edgeNamed *types.Named
+	isEdges := func(t types.Type) bool {
+		sl, ok := t.Underlying().(*types.Slice)
+		if !ok {
+			return false
+		}
+		pt, ok := sl.Elem().(*types.Pointer)
+		if !ok {
+			return false
+		}
+		n, ok := pt.Elem().(*types.Named)
+		if !ok {
+			return false
+		}
+		es, ok := n.Underlying().(*types.Struct)
+		if !ok {
+			return false
+		}
+		hasT, hasF := false, false
+		for i := 0; i < es.NumFields(); i++ {
+			if isTensor(es.Field(i).Type()) {
+				hasT = true
+			}
+			if _, isSig := es.Field(i).Type().Underlying().(*types.Signature); isSig {
+				hasF = true
+			}
+		}
+		if hasT && hasF {
+			edgeNamed = n
+			return true
+		}
+		return false
 	}
-	if a.BackEdge, err = lookupNamed(p, core.PkgGrad, "backwardEdge"); err != nil {
-		return nil, err
+	a.GGradient, a.GBackEdges = pick(gs, "gradient", isTensor), pick(gs, "backEdges", isEdges)
+	if a.GGradient < 0 || a.GBackEdges < 0 || edgeNamed == nil {
+		return nil, fmt.Errorf("GradContext fields for the gradient (Tensor) / back edges ([]*edge) not found")
 	}
+	a.BackEdge = edgeNamed
 	es := a.BackEdge.Underlying().(*types.Struct)
-	a.ETarget, a.EGradFn = fieldIndex(es, "target"), fieldIndex(es, "gradFn")
+	isFunc := func(t types.Type) bool { _, ok := t.Underlying().(*types.Signature); return ok }
+	a.ETarget, a.EGradFn = pick(es, "target", isTensor), pick(es, "gradFn", isFunc)
 	if a.ETarget < 0 || a.EGradFn < 0 {
-		return nil, fmt.Errorf("backwardEdge fields not found")
+		return nil, fmt.Errorf("back-edge fields for the target (Tensor) / backward rule (func) not found")
 	}
-	if a.TensorIface, err = lookupNamed(p, core.PkgITensor, "Tensor"); err != nil {
-		return nil, err
+	isBool := func(t types.Type) bool { return types.Identical(t.Underlying(), types.Typ[types.Bool]) }
+	a.GTracked, a.GDirty = fieldIndex(gs, "tracked"), fieldIndex(gs, "bpdirty")
+	if a.GTracked < 0 || a.GDirty < 0 || !isBool(gs.Field(a.GTracked).Type()) || !isBool(gs.Field(a.GDirty).Type()) {
+		// role inference: of the two bool fields, "spent" is the one that some function other than the constructor
+		// sets to the constant true (the walk marks tensors spent); "tracked" is the other one
+		var bools []int
+		for i := 0; i < gs.NumFields(); i++ {
+			if isBool(gs.Field(i).Type()) {
+				bools = append(bools, i)
+			}
+		}
+		if len(bools) != 2 {
+			return nil, fmt.Errorf("GradContext must have exactly two bool flags (tracked / spent) to infer their roles, found %d", len(bools))
+		}
+		constTrue := map[int]bool{}
+		for _, fn := range p.ModuleFunctions(core.PkgGrad) {
+			for _, b := range fn.Blocks {
+				for _, in := range b.Instrs {
+					st, ok := in.(*ssa.Store)
+					if !ok {
+						continue
+					}
+					fa, ok := st.Addr.(*ssa.FieldAddr)
+					if !ok {
+						continue
+					}
+					pt, ok := fa.X.Type().Underlying().(*types.Pointer)
+					if !ok || !types.Identical(pt.Elem(), a.GradContext) {
+						continue
+					}
+					if c, ok := st.Val.(*ssa.Const); ok && c.Value != nil && c.Value.Kind() == constant.Bool && constant.BoolVal(c.Value) {
+						if _, fresh := fa.X.(*ssa.Alloc); !fresh {
+							constTrue[fa.Field] = true
+						}
+					}
+				}
+			}
+		}
+		switch {
+		case constTrue[bools[0]] && !constTrue[bools[1]]:
+			a.GDirty, a.GTracked = bools[0], bools[1]
+		case constTrue[bools[1]] && !constTrue[bools[0]]:
+			a.GDirty, a.GTracked = bools[1], bools[0]
+		default:
+			return nil, fmt.Errorf("cannot tell the tracked flag from the spent flag of GradContext")
+		}
 	}
 	if a.Range, err = lookupNamed(p, core.PkgITensor, "Range"); err != nil {
 		return nil, err
